@@ -1705,6 +1705,24 @@ impl World {
         )
     }
 
+    /// The `get_mutable(..).next()` pattern: take the first item, then drop the stream while the
+    /// lookup may still be running.
+    pub fn call_get_mutable_first(&mut self, node: usize, key: [u8; 32], salt: Option<Vec<u8>>) -> usize {
+        use futures_lite::StreamExt;
+        if self.sync_api {
+            return self.call_sync(node, "get_mutable.next", Box::new(move |d| CallResult::Mutable(d.get_mutable(&key, salt.as_deref(), None).next())));
+        }
+        let dht = self.dht(node);
+        self.call(
+            node,
+            "get_mutable.next",
+            Box::pin(async move {
+                let mut s = dht.get_mutable(&key, salt.as_deref(), None);
+                CallResult::Mutable(s.next().await)
+            }),
+        )
+    }
+
     pub fn call_get_mutable_most_recent(
         &mut self,
         node: usize,
